@@ -56,7 +56,7 @@ def run(rep, tier, seed):
             dirs = [d1] * (n + 2) + [rng.choice([1, -1]) for _ in range(n + 3)]
         sess = [keys(seqs["menu-complete"] if d > 0 else seqs["menu-complete-backward"]) for d in dirs]
         mode = rng.choice(["emacs", "vi"])   # (vi: insert mode)
-        cs = {"id": "c15-%d" % ci, "inputrc": ("set editing-mode vi\n" if mode == "vi" else "") + rng.choice(["", "", "set completion-ignore-case on\n", "set menu-complete-display-prefix on\n"]),
+        cs = {"id": "c15-%d" % ci, "inputrc": ("set editing-mode vi\n" if mode == "vi" else "") + rng.choice(["", "", "set completion-ignore-case on\n", "set menu-complete-display-prefix on\n"]) + case_options(rng, ci, skip=("autocomplete", "disable-completion", "completion-query-items", "history-autosuggest", "keyseq-timeout")),
               "w": w, "h": h, "prompt": "> ", "binds": binds, "comp": {"cands": cands, "nosort": rng.random() < 0.3},
               "wrap": "none", "sessions": [sess]}
         cases.append(cs)
